@@ -137,6 +137,16 @@ impl Model {
         self.q.push_back(k);
         true
     }
+    /// touch of a key that is certainly not tracked (no search: the final fill of a large table)
+    fn touch_fresh(&mut self, k: Key) {
+        if self.cap == 0 {
+            return;
+        }
+        if self.q.len() >= self.cap {
+            self.q.pop_front();
+        }
+        self.q.push_back(k);
+    }
     fn remove(&mut self, k: Key) -> bool {
         if let Some(p) = self.q.iter().position(|x| *x == k) {
             self.q.remove(p);
@@ -198,7 +208,7 @@ impl Scenario for Lru {
         "exploration"
     }
     fn rule(&self) -> &'static str {
-        "Enumerated arm first: run indices 0..N of every batch are, in order and independent of the seed, ALL histories of length 1..L (quick L=3: 15,657 cases; thorough L=5: 4,525,791 cases) over a 17-symbol alphabet {touch k0-k3, remove k0-k3, evict_tail, evict_to_target(1 or 2 entries), bump_generation, checkpoint, load latest, run_cycle, restart, reset} for capacities 1, 2, 3 and 4 non-zero keys (counter enumerated_histories). Then seeded histories (1-30 ops, mostly 3-12) over touch/remove/evict_tail/evict_to_target/bump_generation/checkpoint_to_disk/load_from_disk/run_cycle/shutdown/reset/restart on the real LruManager with real checkpoint files in a per-run tmpfs sandbox; capacity 1-4 (a few up to 64), 4-6 keys, the all-zero key in ~30% of runs; run_cycle limits from 0 / one entry / capacity-1 entries up to (one cycle in three) 2^32 average-sized entries and just above, powers of two up to 2^62, u64::MAX, average sizes up to 2^32. After EVERY op len/contains/for_each_entry order are compared with a textbook LRU. A run is non-trivial if it executed >= 2 state-changing ops; distinct = distinct hash of (config, ops, observed results)."
+        "Enumerated arm first: run indices 0..N of every batch are, in order and independent of the seed, ALL histories of length 1..L (quick L=3: 15,657 cases; thorough L=5: 4,525,791 cases) over a 17-symbol alphabet {touch k0-k3, remove k0-k3, evict_tail, evict_to_target(1 or 2 entries), bump_generation, checkpoint, load latest, run_cycle, restart, reset} for capacities 1, 2, 3 and 4 non-zero keys (counter enumerated_histories). Then seeded histories (1-30 ops, mostly 3-12) over touch/remove/evict_tail/evict_to_target/bump_generation/checkpoint_to_disk/load_from_disk/run_cycle/shutdown/reset/restart on the real LruManager with real checkpoint files in a per-run tmpfs sandbox; capacity 1-4 (a few up to 64; one seeded run in 400 with a table of 1 000 ... 1 000 000 slots, whose checkpoint file runs to 20 MiB), 4-6 keys, the all-zero key in ~30% of runs; run_cycle limits from 0 / one entry / capacity-1 entries up to (one cycle in three) 2^32 average-sized entries and just above, powers of two up to 2^62, u64::MAX, average sizes up to 2^32. After EVERY op len/contains/for_each_entry order are compared with a textbook LRU. A run is non-trivial if it executed >= 2 state-changing ops; distinct = distinct hash of (config, ops, observed results)."
     }
     fn assumptions(&self) -> Vec<&'static str> {
         vec![
@@ -228,7 +238,11 @@ impl Scenario for Lru {
         if let Some(c) = enumerated_case(crate::framework::run_index(), tier) {
             return c;
         }
+        // one seeded run in 400 has a LARGE table (its checkpoint file runs to tens of KiB ... 20 MiB): sizes around
+        // powers of two and round decimal numbers
+        let huge = rng.chance(1, 400);
         let capacity = match rng.below(100) {
+            _ if huge => *rng.pick(&[1_000u32, 4_096, 65_535, 65_536, 100_000, 131_072, 250_000, 1_000_000]),
             0..=24 => 1,
             25..=49 => 2,
             50..=69 => 3,
@@ -236,7 +250,7 @@ impl Scenario for Lru {
             88..=95 => rng.range(5, 16) as u32,
             _ => rng.range(17, 64) as u32,
         };
-        let nkeys = if capacity <= 4 { rng.range(4, 6) as usize } else { capacity as usize + rng.range(1, 4) as usize };
+        let nkeys = if capacity <= 4 { rng.range(4, 6) as usize } else if huge { 6 } else { capacity as usize + rng.range(1, 4) as usize };
         let mut keys: Vec<String> = Vec::with_capacity(nkeys);
         let zero = rng.chance(30, 100);
         for i in 0..nkeys {
@@ -269,7 +283,7 @@ impl Scenario for Lru {
             0..=9 => rng.range(1, 2),
             10..=79 => rng.range(3, 12),
             80..=94 => rng.range(13, 30),
-            _ => rng.range(30, 30 + u64::from(capacity) * 3),
+            _ => rng.range(30, 30 + u64::from(capacity.min(64)) * 3),
         } as usize;
         // swarm: each op kind enabled with its own probability
         let mut w = [40u32, 8, 8, 8, 5, 8, 5, 5, 3, 2, 6];
@@ -567,12 +581,15 @@ impl Scenario for Lru {
         // ---- capacity is never lost: the tracker can still hold `capacity` keys ----
         let cap = case.capacity as usize;
         for j in 0..cap {
+            // distinct for every j (tables of more than 65536 slots exist)
             let mut k = [0xEEu8; 9];
             k[0] = (j & 0xff) as u8;
             k[1] = (j >> 8) as u8;
+            k[2] ^= (j >> 16) as u8;
+            k[3] ^= (j >> 24) as u8;
             k[8] = 0x5A;
             let r = lru.touch(&k);
-            m.touch(k);
+            m.touch_fresh(k);
             if !r {
                 viol!("C17.capacity.kept", "capacity_lost", "fill", format!("after the history, touch of fresh key #{j} of {cap} returned false: the tracker can no longer hold its capacity"));
             }
